@@ -62,6 +62,20 @@ fn isolated_generate_keys(text: &str, keys: (u64, u64)) -> std::thread::Result<R
     }
 }
 
+extern "C" {
+    fn setrlimit(resource: i32, rlim: *const [u64; 2]) -> i32;
+}
+
+static MEMORY_RUNAWAY: std::sync::atomic::AtomicBool = std::sync::atomic::AtomicBool::new(false);
+
+fn resident_bytes() -> u64 {
+    std::fs::read_to_string("/proc/self/statm")
+        .ok()
+        .and_then(|s| s.split_whitespace().nth(1).and_then(|x| x.parse::<u64>().ok()))
+        .map(|pages| pages * 4096)
+        .unwrap_or(0)
+}
+
 type GenResult = Option<std::thread::Result<Result<kiki::RustSrc, String>>>;
 static GEN_WATCH: std::sync::Mutex<Option<(f64, std::sync::mpsc::Sender<GenResult>)>> = std::sync::Mutex::new(None);
 static GEN_WATCHDOG: std::sync::Once = std::sync::Once::new();
@@ -72,9 +86,16 @@ fn start_generate_watchdog() {
             std::env::var("VERIF_GENERATE_TIMEOUT_S").ok().and_then(|s| s.parse().ok()).unwrap_or(5.0);
         std::thread::spawn(move || loop {
             std::thread::sleep(std::time::Duration::from_millis(200));
+            // an abandoned `generate` keeps running; one that also keeps allocating would take the
+            // machine down: past 3 GiB of resident memory the current call is given up at once and
+            // the process winds down (the loops below stop as they do after too many timeouts)
+            let runaway = resident_bytes() > (3u64 << 30);
+            if runaway {
+                MEMORY_RUNAWAY.store(true, std::sync::atomic::Ordering::SeqCst);
+            }
             let mut w = GEN_WATCH.lock().unwrap();
             if let Some((t0, tx)) = w.as_ref() {
-                if real_now_s() - *t0 > limit {
+                if runaway || real_now_s() - *t0 > limit {
                     let _ = tx.send(None);
                     *w = None;
                 }
@@ -251,6 +272,12 @@ fn emit(g: &Grammar, text: &str, dir: &Path) -> Fate {
 fn main() {
     let args: Vec<String> = std::env::args().collect();
     std::panic::set_hook(Box::new(|_| {}));
+    // backstop behind the watchdog's memory guard: an allocation beyond 12 GiB of address space
+    // fails (and aborts this process) instead of waking the kernel's OOM killer
+    unsafe {
+        let lim: [u64; 2] = [12u64 << 30, 12u64 << 30];
+        setrlimit(9, &lim);
+    }
     match args.get(1).map(|s| s.as_str()) {
         Some("gen") => {
             let seed: u64 = arg_val(&args, "--seed").and_then(|s| s.parse().ok()).unwrap_or(1);
@@ -266,7 +293,7 @@ fn main() {
             let mut hist = HistoryThread::spawn();
             let mut history_variants = 0usize;
             while accepted < want && k - start < max_tries {
-                if GENERATE_TIMEOUTS.load(std::sync::atomic::Ordering::SeqCst) >= 16 {
+                if GENERATE_TIMEOUTS.load(std::sync::atomic::Ordering::SeqCst) >= 16 || MEMORY_RUNAWAY.load(std::sync::atomic::Ordering::SeqCst) {
                     break;
                 }
                 let (g, text) = if (k as usize) < gen::N_REPO_EXAMPLES {
@@ -424,7 +451,7 @@ fn main() {
             let (mut runs, mut distinct_ns, mut grammars, mut self_checks) = (0i128, 0i128, 0i128, 0i128);
             let mut digest = common::rng::Fnv::new();
             for k in start..start + count {
-                if GENERATE_TIMEOUTS.load(std::sync::atomic::Ordering::SeqCst) >= 16 {
+                if GENERATE_TIMEOUTS.load(std::sync::atomic::Ordering::SeqCst) >= 16 || MEMORY_RUNAWAY.load(std::sync::atomic::Ordering::SeqCst) {
                     break;
                 }
                 let item = TABLES_BASE + k;
